@@ -79,14 +79,21 @@ class Prop:
         three = base['three']
         frame = lambda m: [base['single'], three[0], m, other_single, three[2], base['tagged'], three[1], base['group'][0],
                            base['group'][1]]
-        clean = [l for l in frame(None) if l is not None]
+        # second frame: the bystanders are a two-part message with sequence id 0 and one without sequence id on
+        # the channel of the mutated fragments (sequence id 0, "no sequence id" and the mutated line's own id are
+        # three different reassembly slots)
+        zero = gen.render(gen.payload_bits(rng, 'MessageType5'), seq='0', cuts=[33])
+        noseq = gen.render(gen.payload_bits(rng, 'MessageType5'), seq='', chan='B', cuts=[21])
+        frame_a = frame
+        frame_b = lambda m: [zero[0], noseq[0], m, other_single, zero[1], base['single'], noseq[1]]
         step = 1 if ctx.tier == 'thorough' else 4
-        sub = muts[::step]
-        ref = {}
-        for fe in ('iter', 'bytestream', 'queue'):
+        for frame, sub in ((frame_a, muts[::step]), (frame_b, [x for x in muts if x[0] in ('frag1', 'frag2')][::max(1, step // 2)])):
+          clean = [l for l in frame(None) if l is not None]
+          ref = {}
+          for fe in ('iter', 'bytestream', 'queue'):
             for tbq in (0, 1):
                 ref[(fe, tbq)] = impl.step('stream %s %d %s' % (fe, tbq, ' '.join(impl.hx(l) for l in clean)))
-        for fe in ('iter', 'bytestream', 'queue'):
+          for fe in ('iter', 'bytestream', 'queue'):
             for tbq in (0, 1):
                 ops = ['stream %s %d %s' % (fe, tbq, ' '.join(impl.hx(l) for l in frame(m))) for _, _, m in sub]
                 outs = ctx.corr(ops, impl.step, 'stream-%s-tbq%d' % (fe, tbq),
@@ -118,8 +125,7 @@ class Prop:
             o = impl.step('%s %s' % (inp['cmd'], inp['line']))
             print('observed:', o)
             return not (o.startswith('ERR:') and o[4:] not in LIB)
-        print(inp)
-        return True
+        return None       # reader cases: regenerated from the recorded seed by the generic replay
 
 
 PROP = Prop()
